@@ -365,6 +365,68 @@ def check(ctx, rep: Report):
     for b_ in bad:
         rep.violate(Violation("C17.LIVE", f"C17.LIVE|pair|{b_[:60]}", f"mutate_value: {b_}", f"{mv.module.relpath}:{mv.node.lineno}", "mutate_value"))
 
+    # ---- LIVE (helper level): a helper that advertises **keywords looks at them on every normal path
+    from ..runs import run_helper
+    from ..values import FRESH, vrepr
+
+    def conf_kw(cfg):
+        cfg.record_decisions = True
+        cfg.user_may_raise = False
+        cfg.loop_unroll = 1
+
+        def stub_with(interp, st, args, kwargs, frame, node):
+            from ..common import Outcome
+            return [Outcome("ok", st, Sym(("with_result",), {FRESH}))]
+        cfg.stubs["WithAttrMethod.with_attr"] = stub_with
+    nkw = 0
+    for hid, h in helpers.items():
+        kwname = h.params()["varkw"]
+        if not kwname or h.family not in ("toplevel", "scalar"):
+            continue
+        nkw += 1
+        it, outs = run_helper(ctx.p, ctx.H, h, inplace=False, shape="given", configure=conf_kw, cache=False)
+        rep.functions |= set(it.functions_entered)
+        rep.evaluations += len(outs)
+        blind = []
+        for o in outs:
+            if o.kind != "ok":
+                continue
+            consulted = any((k[0] == "truthy" and len(k[1]) == 3 and str(k[1][1]).startswith("kwargs:")) or (kwname, "[]") == tuple(k[1])[:2]
+                            or kwname in str(k[1]) for k, v in o.state.decisions if isinstance(k[1], tuple)) \
+                or any(kwname in str(e) for e in o.state.trace if e[0] in ("W", "U"))
+            if not consulted:
+                blind.append(vrepr(o.value))
+        rep.oblige("C17.LIVE", f"{hid}: **{kwname} consulted on every normal path", not blind, str(sorted(set(blind))[:3]))
+        if blind:
+            rep.violate(Violation("C17.LIVE", f"C17.LIVE|kwgroup|{hid}", f"{hid}: a normal path returns `{sorted(set(blind))[0]}` without ever looking at the advertised keywords `**{kwname}`: they are accepted and silently ignored when combined with the other arguments",
+                                  f"{h.impl.module.relpath}:{h.impl.node.lineno}", hid))
+    if nkw < 4:
+        raise AnalysisError(f"C17.LIVE: only {nkw} helpers with **keywords inspected (floor 4)")
+
+    # paired keywords of mutate_value: a constructor is only usable together with the expected type (dict shorthand)
+    npair = 0
+    for fi_ in ctx.p.iter_functions():
+        if fi_.is_lambda:
+            continue
+        for n_ in walk_own(fi_.node):
+            if isinstance(n_, ast.Call) and ast.unparse(n_.func).split(".")[-1] == "mutate_value":
+                kws = {k.arg: ast.unparse(k.value) for k in n_.keywords if k.arg}
+                if "constructor" in kws or "expected_type" in kws:
+                    npair += 1
+                    want = {"constructor": "expected_type", "expected_type": "constructor"}
+                    miss = [want[k] for k in ("constructor", "expected_type") if k in kws and want[k] not in kws]
+                    ok = not miss
+                    if ok:
+                        a, b = kws["constructor"], kws["expected_type"]
+                        ok = (a.endswith(".item_constructor") and b.endswith(".item_type")) or (a.endswith(".constructor") and not a.endswith("item_constructor") and b.endswith(".type") and not b.endswith("item_type"))
+                    short_ = fi_.qualname.split(":")[-1]
+                    rep.oblige("C17.LIVE", f"{short_}: constructor/expected_type paired", ok)
+                    if not ok:
+                        rep.violate(Violation("C17.LIVE", f"C17.LIVE|pairkw|{short_}", f"{short_} calls mutate_value with {sorted(k for k in kws if k in want)} only / mismatched: the dict-of-constructor-arguments shorthand (advertised for the value together with nested keywords) is no longer turned into an instance",
+                                              f"{fi_.module.relpath}:{n_.lineno}", short_))
+    if npair < 4:
+        raise AnalysisError(f"C17.LIVE: only {npair} mutate_value calls with a constructor found (floor 4)")
+
     # ---- MEMO: the constructor-argument memo depends on the constructor only, never on the keywords of one call
     gfa = ctx.p.find_function("_get_function_args")
 
